@@ -1,6 +1,97 @@
-/- stub: property C19 has no model driver yet -/
-namespace ActixModel.Drv.C19
+import ActixModel.Util
+import ActixModel.Model.PanicCore
+import ActixModel.Model.PanicChunk
+import ActixModel.Model.PanicWs
+/-
+Line-protocol driver for C19.  One case = `<entry> key=value… <hex bytes>`.
 
-def run (_line : String) : String := "unimplemented"
+For the entry points that have a panic-explicit Lean model the driver prints the model's
+classification (`ok …` / `err…` / `none` / `PANIC`), which must equal what the real code did.
+For the pure fuzz entry points (no Lean model: httparse, serde, mime, cookie, regex … are
+third-party code) the driver prints the constant `nopanic`, i.e. the property's own demand.
+See `harness/src/props/c19.rs` for the implementation side.
+-/
+namespace ActixModel.Drv.C19
+open ActixModel.Util ActixModel.Panic
+
+def natsOfBytes (bs : Bytes) : List Nat := bs.map (·.toNat)
+
+/-- last word = hex payload -/
+def payload (ws : List String) : List Nat :=
+  match ws.getLast? with
+  | some h => (bytesOfHex h).map natsOfBytes |>.getD []
+  | none => []
+
+/-- `seg=3,5,1`: cut sizes; the remainder is the last segment. `seg=-`: whole. `seg=1*`: bytewise -/
+def segments (ws : List String) (bs : List Nat) : List (List Nat) :=
+  match kv ws "seg" with
+  | none => [bs]
+  | some "-" => [bs]
+  | some "1*" => bs.map fun b => [b]
+  | some s =>
+    let cuts := (s.splitOn ",").filterMap (·.toNat?)
+    let rec go (cuts : List Nat) (bs : List Nat) (acc : List (List Nat)) : List (List Nat) :=
+      match cuts with
+      | [] => (bs :: acc).reverse
+      | c :: cs => go cs (bs.drop c) (bs.take c :: acc)
+    go cuts bs []
+
+def b01 (b : Bool) : String := if b then "1" else "0"
+
+def showSummary (s : Chunk.Summary) : String :=
+  "ok n=" ++ toString s.delivered ++ " eof=" ++ b01 s.eof ++ " left=" ++ toString s.left
+
+def runBody (k : Chunk.Kind) (ws : List String) : String :=
+  let bs := payload ws
+  match Chunk.feed k [] 0 (segments ws bs) with
+  | .ok s => showSummary s
+  | .err _ => "err"
+  | .panic _ => "PANIC"
+
+def runCl (ws : List String) : String :=
+  let v := payload ws
+  -- httparse: header value bytes are HTAB, 0x20..0x7e, 0x80..0xff (anything else fails the head)
+  if !(v.all fun b => b = 9 || (32 ≤ b && b ≠ 127)) then "err"
+  else match Chunk.contentLength v with
+    | .ok n => if n = 0 then "ok0" else "okN"
+    | .err _ => "err"
+    | .panic _ => "PANIC"
+
+def showOptLen : Option (List Nat) → String
+  | none => "-"
+  | some l => toString l.length
+
+def runWs (ws : List String) : String :=
+  let bs := payload ws
+  let server := kv ws "role" == some "s"
+  let maxSize := kvNat ws "max" 65536
+  match Ws.parse bs bs.length server maxSize with
+  | .panic _ => "PANIC"
+  | .err e => "err:" ++ e
+  | .ok (.none, _) => "none"
+  | .ok (.frame fin op pl, rest) =>
+    let close :=
+      if op = .close then
+        match pl with
+        | none => " cc=-"
+        | some p =>
+          match Ws.parseClosePayload p with
+          | .ok (some (code, d)) => " cc=" ++ toString code ++ "," ++ b01 d.isSome
+          | .ok none => " cc=-"
+          | .err _ => " cc=err"
+          | .panic _ => " PANIC"
+      else ""
+    "ok fin=" ++ b01 fin ++ " op=" ++ op.show ++ " pl=" ++ showOptLen pl ++
+      " rest=" ++ toString rest.length ++ close
+
+def run (line : String) : String :=
+  let ws := words line
+  match ws.head? with
+  | some "chunk" => runBody (.chunked .size 0) ws
+  | some "len" => runBody (.length (kvNat ws "n" 1)) ws
+  | some "cl" => runCl ws
+  | some "ws" => runWs ws
+  | some _ => "nopanic"
+  | none => "bad-case"
 
 end ActixModel.Drv.C19
